@@ -184,7 +184,9 @@ def exec_pool(case):
     for j in range(case["iters"]):
         it = it0 + case["batches"] + j
         sm.set_current("iter", it)
-        sm.set_current("beta", 0.3 + 0.1 * j)
+        # (a quarter of the cases anneal from a temperature that is positive but tiny - below the schedule's own tolerance of 1e-4 -
+        # as happens on likelihoods with an enormous dynamic range: every step treats 'beta > 0' the same way or not at all)
+        sm.set_current("beta", (2.0 ** -14) * (1 + j) if case["seed"] % 4 == 0 else 0.3 + 0.1 * j)
         pool_u = sm.get_history("u", flat=True)
         lw = rng.normal(0, case["wsigma"], len(pool_u))
         # the mode is alive while the clusterer is first fitted (step 0) and dies from step die_from on
